@@ -50,6 +50,7 @@ pub fn c04(v: &View) -> Vec<Violation> {
     let mut out = vec![];
     let o = v.out;
     // (a) reaction to byzantine frames
+    let mut data_rule_violating = false;
     for (ep, conn, desc, seq) in &o.obs.byz_fired {
         let kind = desc.split(' ').next().unwrap_or("");
         let Some(tx) = o.obs.tx.iter().find(|t| t.seq == *seq) else { continue };
@@ -75,6 +76,196 @@ pub fn c04(v: &View) -> Vec<Violation> {
             if abandoned && kind.starts_with("StreamBeyond") {
                 may_ignore = true;
             }
+        }
+        // --- re-validate the rule against what the victim had really SENT when it processed
+        //     the packet (limits still in flight towards the attacker make a rule a no-op) ---
+        let attacker_role = vrole.peer();
+        let num_after = |key: &str| -> Option<u64> {
+            desc.split(key).nth(1).and_then(|s| s.trim_start().split(|c: char| !c.is_ascii_digit()).next()).and_then(|s| s.parse::<u64>().ok())
+        };
+        let sid = num_after("stream ");
+        let victim_tp = v.peer_tp(idx, attacker_role); // what the victim declared
+        let mut v_max_data = victim_tp.map_or(0, |t| t.initial_max_data);
+        let mut v_max_stream: BTreeMap<u64, u64> = BTreeMap::new();
+        let mut v_streams_bidi = victim_tp.map_or(0, |t| t.initial_max_streams_bidi);
+        let mut v_streams_uni = victim_tp.map_or(0, |t| t.initial_max_streams_uni);
+        let mut v_cid_seq_max = 0u64;
+        let mut v_stop_or_done = false;
+        for (k, t) in o.obs.tx.iter().enumerate() {
+            if !(t.ep == vside.ep && t.conn == vside.conn && t.seq < processed.seq) {
+                continue;
+            }
+            if let Ok(fr) = &v.tx_frames[k] {
+                for f in fr {
+                    match f {
+                        Frame::MaxData { max } => v_max_data = v_max_data.max(*max),
+                        Frame::MaxStreamData { id, max } => {
+                            let e = v_max_stream.entry(*id).or_insert(0);
+                            *e = (*e).max(*max);
+                        }
+                        Frame::MaxStreams { bidi: true, max } => v_streams_bidi = v_streams_bidi.max(*max),
+                        Frame::MaxStreams { bidi: false, max } => v_streams_uni = v_streams_uni.max(*max),
+                        Frame::NewConnectionId { seq, .. } => v_cid_seq_max = v_cid_seq_max.max(*seq),
+                        Frame::StopSending { id, .. } if Some(*id) == sid => v_stop_or_done = true,
+                        _ => {}
+                    }
+                }
+            }
+        }
+        // has the victim's application already finished with the receiving half of that stream?
+        if let Some(id) = sid {
+            if let Some(r) = o.app.recvs.get(&crate::run::StreamKey { conn: idx, id, sender: attacker_role }) {
+                if r.t_end_ns != 0 && r.t_end_ns <= processed.t_ns {
+                    v_stop_or_done = true;
+                }
+            }
+            // the victim had already processed a FIN or RESET_STREAM for it (possibly sent after
+            // the offending packet and reordered in front of it)
+            for (k, r) in o.obs.rx.iter().enumerate() {
+                if r.ep == vside.ep && r.conn == vside.conn && r.seq < processed.seq {
+                    if let Ok(fr) = &v.rx_frames[k] {
+                        if fr.iter().any(|f| matches!(f, Frame::ResetStream { id: i, .. } if *i == id) || matches!(f, Frame::Stream { id: i, fin: true, .. } if *i == id)) {
+                            v_stop_or_done = true;
+                        }
+                    }
+                }
+            }
+            // the attacker itself had already finished or reset the stream honestly
+            let attacker_side = crate::oracle::Side { ep: *ep, conn: *conn };
+            for (k, t) in o.obs.tx.iter().enumerate() {
+                if t.ep == attacker_side.ep && t.conn == attacker_side.conn && t.seq < *seq && t.byz.is_none() {
+                    if let Ok(fr) = &v.tx_frames[k] {
+                        if fr.iter().any(|f| matches!(f, Frame::ResetStream { id: i, .. } if *i == id) || matches!(f, Frame::Stream { id: i, fin: true, .. } if *i == id)) {
+                            v_stop_or_done = true;
+                        }
+                    }
+                }
+            }
+        }
+        // s2n-quic enforces the limits it has DECIDED (consumed + window, closed + limit), which
+        // can be ahead of what it has put on the wire so far; a frame inside the decided limit
+        // does not make the endpoint buffer more than its window, so it is not counted
+        let consumed_by = |id: Option<u64>| -> u64 {
+            o.app
+                .reads_log
+                .iter()
+                .filter(|(t, k, _)| *t <= processed.t_ns && k.conn == idx && k.sender == attacker_role && id.map_or(true, |i| k.id == i))
+                .fold(BTreeMap::new(), |mut m: BTreeMap<u64, u64>, (_, k, n)| {
+                    let e = m.entry(k.id).or_insert(0);
+                    *e = (*e).max(*n);
+                    m
+                })
+                .values()
+                .sum()
+        };
+        // every stream of the attacker that the victim has seen so far may already be closed
+        // and credited back
+        let seen_streams = |bidi: bool| -> u64 {
+            let mut ids = std::collections::BTreeSet::new();
+            for (k, r) in o.obs.rx.iter().enumerate() {
+                if r.ep == vside.ep && r.conn == vside.conn && r.seq < processed.seq {
+                    if let Ok(fr) = &v.rx_frames[k] {
+                        for f in fr {
+                            if let Frame::Stream { id, .. } | Frame::ResetStream { id, .. } = f {
+                                let attackers = (id & 1 == 0) == (attacker_role == Role::Client);
+                                if attackers && (id & 2 == 0) == bidi {
+                                    ids.insert(*id);
+                                }
+                            }
+                        }
+                    }
+                }
+            }
+            ids.len() as u64
+        };
+        let still_violating = match kind {
+            "StreamBeyondStreamCredit" => {
+                let off = num_after("offset ").unwrap_or(0);
+                let id = sid.unwrap_or(0);
+                let mine = (id & 1 == 0) == (attacker_role == Role::Client);
+                let initial = victim_tp.map_or(0, |t| if id & 2 != 0 { t.initial_max_stream_data_uni } else if mine { t.initial_max_stream_data_bidi_remote } else { t.initial_max_stream_data_bidi_local });
+                off + 1 > v_max_stream.get(&id).copied().unwrap_or(0).max(initial + consumed_by(Some(id)))
+            }
+            "StreamBeyondConnCredit" => {
+                let initial = victim_tp.map_or(0, |t| t.initial_max_data);
+                // discarded streams release what was received: bound by everything received
+                let received: u64 = {
+                    let mut m: BTreeMap<u64, u64> = BTreeMap::new();
+                    for (k, r) in o.obs.rx.iter().enumerate() {
+                        if r.ep == vside.ep && r.conn == vside.conn && r.seq < processed.seq {
+                            if let Ok(fr) = &v.rx_frames[k] {
+                                for f in fr {
+                                    match f {
+                                        Frame::Stream { id, off, len, .. } => {
+                                            let e = m.entry(*id).or_insert(0);
+                                            *e = (*e).max(off + *len as u64);
+                                        }
+                                        Frame::ResetStream { id, final_size, .. } => {
+                                            let e = m.entry(*id).or_insert(0);
+                                            *e = (*e).max(*final_size);
+                                        }
+                                        _ => {}
+                                    }
+                                }
+                            }
+                        }
+                    }
+                    m.values().sum()
+                };
+                num_after("offset ").unwrap_or(0) + 1 > v_max_data.max(initial + consumed_by(None).max(received))
+            }
+            "StreamIdBeyondLimit" => {
+                let id = sid.unwrap_or(0);
+                let lim = if id & 2 == 0 { v_streams_bidi } else { v_streams_uni };
+                id / 4 >= lim + seen_streams(id & 2 == 0)
+            }
+            // ids the victim has generated but not yet put on the wire count as issued for it
+            "RetireUnissuedSeq" => {
+                let n = num_after("RetireUnissuedSeq").unwrap_or(0);
+                let ever_max = o.obs.tx.iter().enumerate().filter(|(_, t)| t.ep == vside.ep && t.conn == vside.conn).filter_map(|(k, _)| v.tx_frames[k].as_ref().ok()).flat_map(|fr| fr.iter()).filter_map(|f| match f {
+                    Frame::NewConnectionId { seq, .. } => Some(*seq),
+                    _ => None,
+                }).max().unwrap_or(0);
+                n > v_cid_seq_max.max(ever_max)
+            }
+            // a duplicate only once the victim has seen the honest frame with that sequence number
+            "NewCidDupSeqOtherCid" => {
+                let n = num_after("seq ").unwrap_or(u64::MAX);
+                o.obs.rx.iter().enumerate().any(|(k, r)| {
+                    r.ep == vside.ep && r.conn == vside.conn && r.seq < processed.seq
+                        && v.rx_frames[k].as_ref().map_or(false, |fr| fr.iter().any(|f| matches!(f, Frame::NewConnectionId { seq, .. } if *seq == n)))
+                })
+            }
+            // only a violation once the victim has learned the final size from an earlier packet
+            "DataAfterFin" | "ChangedFinalSize" | "ResetOtherFinalSize" => {
+                let id = sid.unwrap_or(u64::MAX);
+                o.obs.rx.iter().enumerate().any(|(k, r)| {
+                    r.ep == vside.ep && r.conn == vside.conn && r.seq < processed.seq
+                        && v.rx_frames[k].as_ref().map_or(false, |fr| fr.iter().any(|f| {
+                            matches!(f, Frame::Stream { id: i, fin: true, .. } if *i == id) || matches!(f, Frame::ResetStream { id: i, .. } if *i == id)
+                        }))
+                })
+            }
+            _ => true,
+        };
+        if !still_violating {
+            continue; // the rule was a no-op in the state the victim was really in
+        }
+        data_rule_violating |= matches!(kind, "StreamBeyondStreamCredit" | "StreamBeyondConnCredit" | "StreamAtMaxOffset" | "StreamIdBeyondLimit" | "DataAfterFin" | "ChangedFinalSize" | "StreamOnPeerSendOnly" | "AppFrameInHandshakeSpace");
+        // a frame that breaks two rules at once may be rejected with either code
+        if v_stop_or_done && kind.starts_with("StreamBeyond") {
+            allowed.push(FINAL_SIZE_ERROR);
+        }
+        if matches!(kind, "DataAfterFin" | "ChangedFinalSize" | "ResetOtherFinalSize") {
+            // the changed final size may also exceed the stream or connection credit
+            allowed.push(FLOW_CONTROL_ERROR);
+        }
+        if v_stop_or_done && matches!(kind, "StreamBeyondStreamCredit" | "StreamBeyondConnCredit" | "StreamAtMaxOffset" | "DataAfterFin" | "ChangedFinalSize" | "ResetOtherFinalSize") {
+            may_ignore = true;
+        }
+        // 7.5: after the handshake a CRYPTO frame that cannot be buffered MAY simply be discarded
+        if kind == "CryptoBeyondBuffer" {
+            may_ignore = true;
         }
         match v.closed_event(vside) {
             Some((t, CloseKind::Transport, Some(code), err)) if err.contains("initiator: Local") => {
@@ -120,8 +311,20 @@ pub fn c04(v: &View) -> Vec<Violation> {
             }
         }
     }
+    // a peer must never be able to crash the endpoint
+    if let Some(p) = &o.panic {
+        if p.contains("/repo/") && !p.contains("Runtime stalled") {
+            let first = p.lines().next().unwrap_or("").to_string();
+            let second = p.lines().nth(1).unwrap_or("").to_string();
+            out.push(viol(
+                "c04.panic",
+                &format!("panic:{}", first.split("/repo/").nth(1).unwrap_or(&first).chars().take(80).collect::<String>()),
+                format!("the endpoint panicked instead of closing the connection with a transport error (byzantine rules fired: {:?}): {first} {second}", o.obs.byz_fired.iter().map(|b| b.2.clone()).collect::<Vec<_>>()),
+            ));
+        }
+    }
     // (b) injected bytes never reach an application
-    if !o.obs.byz_fired.is_empty() {
+    if data_rule_violating {
         for (key, r) in &o.app.recvs {
             if let Some((off, what)) = &r.mismatch {
                 out.push(viol(
